@@ -26,6 +26,10 @@ pub mod um_oracle;
 pub mod um_suites;
 pub mod c23;
 pub mod c28;
+pub mod bookgen;
+pub mod c24;
+pub mod c25;
+pub mod xmltree;
 
 pub fn for_property(p: &str) -> Vec<Suite> {
     match p {
@@ -58,6 +62,8 @@ pub fn for_property(p: &str) -> Vec<Suite> {
         "C27" => um_suites::c27(),
         "C23" => c23::suites(),
         "C28" => c28::suites(),
+        "C24" => c24::suites(),
+        "C25" => c25::suites(),
         _ => vec![],
     }
 }
